@@ -233,6 +233,10 @@ def run(ctx):
     rp  = rpload.load()
     rng = ctx.rng
     aliases = tables(ctx)
+    # the monitor and the generator also know the deprecated names the translator saw last: a mapping that
+    # has disappeared from the parsed table (or can no longer be parsed as one) is still exercised and judged
+    seen = set(a[0] for a in aliases)
+    aliases = list(aliases) + [a for a in FALLBACK_ALIASES if a[0] not in seen]
     import radical.pilot.task_description as rtd
     modes = [getattr(rtd, n) for n in dir(rtd) if n.startswith(('TASK_', 'AGENT_', 'RAPTOR_')) and
              isinstance(getattr(rtd, n), str)]
